@@ -86,6 +86,8 @@ pub broadcast axiom fn ax_string_obeys_cmp()
 pub struct Schema { _p: u8 }
 #[verifier::external_body]
 pub struct SchemaDeps { _p: u8 }
+/// (unit V23 verifies type_util.rs's real functions against the documented meaning of these two predicates:
+/// scalar_schema = scalar_ok(.., scalar_type), string_enum_schema = string_list_ok)
 pub uninterp spec fn scalar_schema(s: Schema, d: SchemaDeps) -> bool;
 pub uninterp spec fn string_enum_schema(s: Schema, d: SchemaDeps) -> bool;
 #[verifier::external_body]
